@@ -57,6 +57,17 @@ CLAIMED = {
         "note": _NOTE + " The fix producers inside the visitor (ast_decompiler based) are outside the claim.",
         "technique": "CrossHair symbolic execution + z3; fixpoint loop unrolled to 2n+2 rounds",
     },
+    "C17": {
+        "design_ref": "DESIGN.md section 5 C17",
+        "text": ("H17a (direct z3): the %-template regex is read from the live module, translated node by node to a z3 regular "
+                 "expression and compared, for every template up to 8 (quick) / 12 (thorough) characters, with a regular model of "
+                 "CPython's parser in both directions (unsat = no template in the difference; three known difference classes are "
+                 "scoped out and re-found by their own queries). H17b/H17c (CrossHair): argument checking with symbolic payloads "
+                 "and parse_format_string on symbolic templates against E3-validated models of CPython."),
+        "note": _NOTE + " The CPython models are validated against `%` / string.Formatter on all strings <= 4/5 over a 10-character alphabet at the start of every run (E3); a disagreement is a harness error.",
+        "technique": "z3 regular-expression inclusion queries on a translation of the live regex + CrossHair symbolic execution",
+        "engine": "z3re+xh",
+    },
 }
 
 _PENDING = "harness not landed yet in this commit (build in progress; see DESIGN.md section 9)"
